@@ -423,7 +423,7 @@ class C13:
             "length, the reference re-checker verifies dest at 100%, returned count <= listed files present; "
             "non-trivial when >= 2 files, a decoy, or a boundary-ending file; distinct by (per-torrent version / "
             "layout / encoder, #search dirs, decoy kinds, route, metafiles-as-directory)")
-    required = ("dest_trees_verified", "decoy_met_first", "batch_cases", "v1_torrents", "v2_torrents", "v3_torrents",
+    required = ("dest_trees_verified", "batch_cases", "v1_torrents", "v2_torrents", "v3_torrents",
                 "copy_events", "boundary_cases", "empty_file_cases", "two_phase_cases", "search_path_is_a_file_cases")
     assumptions = ("v1 metafiles with padding entries are outside the quantifier (not generated)",
                    "decoys are fresh random bytes: none of their pieces verifies")
@@ -563,7 +563,7 @@ class C14:
             "that basename; no decoy is placed; non-trivial when pre-populated, a decoy is present or the rebuild "
             "is repeated; distinct by (C13 signature, pre-population kinds, repeats)")
     required = ("snapshots_compared", "copy_events", "prepop_wrong", "prepop_shorter", "prepop_shorter-wrong", "prepop_correct",
-                "repeat_runs", "decoy_met_first", "placed_files_checked", "candidate_spoiled_between_rebuilds")
+                "repeat_runs", "placed_files_checked", "candidate_spoiled_between_rebuilds")
     assumptions = C13.assumptions
 
     @staticmethod
